@@ -91,7 +91,9 @@ def _run_one_stage(prop, mod, st, only_stage, quiet, total, stage_info, inconclu
             else:
                 binary = build.ensure_built(st['variant'])
         except build.BuildError as e:
-            if st.get('build_failure_is_violation'):
+            # only a rustc failure on the library itself says something about the configuration; cargo failing for any other
+            # reason (lock, disk, manifest) or the driver crate failing is a harness problem
+            if st.get('build_failure_is_violation') and 'could not compile `num-bigint`' in e.log:
                 pr = Problem({prop}, 'configuration does not build: ' + st['variant'], e.first_error())
                 pr.cmd = 'build ' + st['variant']
                 pr.variant = st['variant']
